@@ -60,6 +60,13 @@ func main() {
 	kit.Log.Off.Store(true)
 	base := kit.TempDir("c02")
 	defer os.RemoveAll(base)
+	// overlapping requests first (E2, deterministic); the sweep below serves many requests at once
+	overlapPhase(rep, base)
+	if rep.ViolationCount() > 0 {
+		rep.Capped("the sweep of single requests was skipped: overlapping requests already differ from the same requests served alone")
+		rep.Finish()
+		return
+	}
 	root := filepath.Join(base, "root")
 	tokens := map[string]string{}
 	for _, f := range rootFiles {
